@@ -102,6 +102,36 @@ def family(kind, thorough, floats):
     raise ValueError(kind)
 
 
+WIDE_M = {"float64": 2 ** 25, "float32": 2 ** 24 - 1, "int64": 2 ** 25, "int32": 2 ** 25, "int16": 2 ** 15 - 1}
+
+
+def wide_family(kind, st):
+    """elements whose coordinates span the whole exactly-representable integer range of the subtype
+    (differences between coordinates are then NOT representable in a narrow coordinate type):
+    every vertex triple over a 4 x 7 grid of extreme / small values"""
+    M = WIDE_M[st]
+    xs = (-M, -2, 1, M)
+    ys = (-M, -M + 1, -1, 0, 2, M - 1, M)
+    pts = [(x, y) for x in xs for y in ys]
+    hole = ((-3, -3), (-3, 5), (4, 5), (-3, -3))
+    if kind == "point":
+        return [(-M, M)]
+    if kind == "multipoint":
+        return [((-M, M), (M, -M))]
+    triples = list(itertools.permutations(pts, 3))
+    if kind == "line":
+        return triples
+    if kind == "ring":
+        return [t + (t[0],) for t in triples[::7]]
+    if kind == "multiline":
+        return [(t, t[::-1]) for t in triples[::29]]
+    if kind == "polygon":
+        return [(t + (t[0],),) for t in triples] + [((t + (t[0],)), hole) for t in triples[::31]]
+    if kind == "multipolygon":
+        return [((t + (t[0],),), (hole,)) for t in triples[::13]]
+    raise ValueError(kind)
+
+
 def expected_measures(kind, e, s):
     """(area, (length_exact, length)) of element e (lattice coords) after scaling by s"""
     if e is None:
@@ -245,7 +275,10 @@ def plan(ctx):
             fam = family(kind, ctx.thorough, st.startswith("float"))
             step = 150
             for c in range(0, len(fam), step):
-                units.append((kind, st, fam[c:c + step]))
+                units.append((kind, st, fam[c:c + step], None))
+            wf = wide_family(kind, st)
+            for c in range(0, len(wf), 2500):
+                units.append((kind, st, wf[c:c + 2500], (1, 0, 0)))
     return units
 
 
@@ -260,8 +293,8 @@ def run(ctx):
 
     def work(col, i):
         j = (i + rot) % len(units)
-        kind, st, fam = units[j]
-        T = L.transform_for(st, ctx.seed, salt=j)
+        kind, st, fam, Tfix = units[j]
+        T = Tfix or L.transform_for(st, ctx.seed, salt=j)
         check_chunk(col, kind, fam, st, T, j)
         if T != (1, 0, 0) and st == "float64":
             check_chunk(col, kind, fam, st, (1, 0, 0), j)
@@ -270,7 +303,8 @@ def run(ctx):
     ctx.rule = ("polygons = every sequence of 0..3 rings over a pool of 11 rings (1..5 vertices; zero-area, "
                 "collinear, cw/ccw, Pythagorean, generic); multipolygons = 1..3 parts; lines = every lattice "
                 "vertex sequence plus NaN vertices at every position; x 5 subtypes x views (full, 2 slices) x "
-                "array/scalar/GeoSeries forms x similarity transform. distinct_nontrivial counts present "
+                "array/scalar/GeoSeries forms x similarity transform; plus a wide-range family per subtype whose coordinates "
+                "span the subtype's whole exactly-representable integer range. distinct_nontrivial counts present "
                 "elements with non-zero area or length.")
     ctx.coverage_extra["units"] = len(units)
     ctx.assumptions = ["rings closed (first == last) when they have >= 3 entries", "no 0-vertex rings inside a polygon",
